@@ -1953,7 +1953,7 @@ pub fn judge_c15_case(ctx: &mut Ctx, suite: &str, cs: u64, case: &Case, src: &st
 
 // ---------------------------------------------------------------------------------------------
 
-/// Known finding KF3 (C05): a header column that is at once the column of an input `B_out` and the `_out` (expected) column of
+/// F23 (C05; first recorded as known finding KF3, then repaired): a header column that is at once the column of an input `B_out` and the `_out` (expected) column of
 /// a bidirectional signal `B`.  An `X` there must be expanded for the input (two executions, 0 then 1) while the expected
 /// value of `B` stays the row's `X`; the crate reads the expected value from the expanded entry (0, then 1).  The probe runs
 /// exactly that input and attributes to KF3 only that signature; any other deviation on it is reported as a violation.
